@@ -277,7 +277,7 @@ pub fn swarm(prop: Prop, r: &mut Rng, pools: &Pools, corpus_len: usize) -> Swarm
     let nmeta = r.range(1, 2);
     let mut metas = Vec::new();
     for _ in 0..nmeta {
-        let plain = prop == Prop::C20 || r.chance(0.85);
+        let plain = r.chance(if prop == Prop::C20 { 0.6 } else { 0.85 });
         let (pool, base) = if plain { (&pools.plain_metas, 1000) } else { (&pools.metas, 0) };
         let idx = r.below(pool.len());
         metas.push((pool[idx].clone(), base + idx));
@@ -289,6 +289,26 @@ pub fn swarm(prop: Prop, r: &mut Rng, pools: &Pools, corpus_len: usize) -> Swarm
         let class = if heavy { *r.pick(&[0usize, 1, 2, 2]) } else { *r.pick(&[0usize, 1, 2, 2, 2, 3, 3, 3, 3, 4]) };
         let class = if class == 4 && !r.chance(0.15) { 3 } else { class };
         utts.push(make_utt(r, corpus_len, class));
+    }
+    // siblings: same length and mostly the same labels as another utterance of this run (a cache keyed
+    // by length / first label / a prefix would confuse them)
+    if !utts.is_empty() && r.chance(0.5) {
+        let base = utts[r.below(utts.len())].clone();
+        if base.lines.len() >= 2 {
+            let mut sib = base.clone();
+            let k = match r.below(3) {
+                0 => sib.lines.len() - 1,
+                1 => sib.lines.len() / 2,
+                _ => 1 + r.below(sib.lines.len() - 1),
+            };
+            sib.lines[k] = r.below(corpus_len) as u32;
+            utts.push(sib);
+            if r.chance(0.3) {
+                let mut rev = base.clone();
+                rev.lines.reverse();
+                utts.push(rev);
+            }
+        }
     }
     let mut w = OpWeights::default();
     let profile: &'static str;
@@ -532,7 +552,7 @@ impl Gen {
                             8 => MetaField::UseGv(si),
                             _ => MetaField::Option(si),
                         };
-                        Some((pos, f, self.r.below(3) as u8))
+                        Some((pos, f, self.r.below(5) as u8))
                     } else {
                         None
                     };
